@@ -134,15 +134,16 @@ func runC03Iface(c *Ctx, wl *walkLayers) {
 }
 
 // runC03Seen: the bookkeeping behind "missing entry" in the keyed walkers (map, URL).
-//   fresh    the set of keys seen in the input is created in the very pass that fills it
-//            (a set kept on the validator survives from one element of a slice of maps to the
-//            next, hiding keys that are absent from later elements)
-//   fill     every iteration over the input's entries records its key in that set, with the key
-//            that is also used to look the rules up
-//   report   the function that ranges over the rule map is called with the rule map the walker
-//            validates against and that set, after the input loop, on the pass's normal return
-//   skip     inside it an entry is skipped iff its key was seen (or is the unnamed key), a rule is
-//            skipped iff it is not `required`, and every remaining one writes exactly one clause
+//
+//	fresh    the set of keys seen in the input is created in the very pass that fills it
+//	         (a set kept on the validator survives from one element of a slice of maps to the
+//	         next, hiding keys that are absent from later elements)
+//	fill     every iteration over the input's entries records its key in that set, with the key
+//	         that is also used to look the rules up
+//	report   the function that ranges over the rule map is called with the rule map the walker
+//	         validates against and that set, after the input loop, on the pass's normal return
+//	skip     inside it an entry is skipped iff its key was seen (or is the unnamed key), a rule is
+//	         skipped iff it is not `required`, and every remaining one writes exactly one clause
 func runC03Seen(c *Ctx) {
 	p := c.P
 	c.Rule("C03-SEEN", "keyed walkers: fresh per-pass key set, filled on every iteration with the lookup key, handed with the walker's rule map to the missing-key reporter after the input loop; the reporter skips exactly the seen keys and the non-required rules", 3)
